@@ -103,8 +103,10 @@ parent_cache::find (Dwarf_Die die)
        return a.first < b;
      });
 
-  assert (jt != it->second.end ());
-  assert (jt->first == dieoff);
+  // A reference attribute of a malformed file can lead to an offset where
+  // no DIE of this unit starts.
+  if (jt == it->second.end () || jt->first != dieoff)
+    throw std::runtime_error ("invalid DWARF: no DIE at this offset");
   return jt->second;
 }
 
